@@ -19,7 +19,7 @@ func init() {
 			"(R2b) the early-return guard's truth table is exactly: killed∧¬zombie, or user∧state≠running∧¬zombie; (R3) a dead-letter emission is dominated by a condition that separates the root, so the root cannot feed itself; " +
 			"(R4) the guard actor republishes a received dead letter exactly once on the event stream; (R5) both terminal paths of an actor whose mailbox may be paused resume it (parked mail drains to dead letters); " +
 			"(R6) every failing exit of the remoting send reports the envelope, and the report emits one dead letter. " +
-			"NOT decided: exactly-once accounting across racing sends and transitions; stale reference caches at run time.",
+			"(R7) the mailbox cache inside a reference is written only with the mailbox of a context found registered at the reference's path (never with a fallback). NOT decided: exactly-once accounting across racing sends and transitions; staleness of a correctly filled cache across name reuse.",
 		Assumptions: []string{"the dead-letter emission is TellSelf(ves.DeathLetterEvent) on the system (root) context"},
 		Rules: []Rule{
 			{ID: "C03.R1", Min: 2, Desc: "mailbox lookup is total", Fn: c03Lookup},
@@ -28,6 +28,7 @@ func init() {
 			{ID: "C03.R4", Min: 1, Desc: "guard republishes dead letters once", Fn: c03Republish},
 			{ID: "C03.R5", Min: 2, Desc: "parked mail surfaces: Resume on both terminal paths", Fn: c03Parked},
 			{ID: "C03.R6", Min: 2, Desc: "remote send failure is reported as a dead letter", Fn: c03RemoteFailure},
+			{ID: "C03.R7", Min: 1, Desc: "a reference caches only the mailbox of the actor registered at its path", Fn: c03CacheSound},
 		},
 	})
 }
@@ -425,5 +426,94 @@ func c03RemoteFailure(p *Program, r *Report) {
 	}
 	if n == 0 {
 		r.Unresolved("implementation of HandleFailedRemotingEnvelop")
+	}
+}
+
+func c03CacheSound(p *Program, r *Report) {
+	lc := lcOrFail(p, r)
+	if lc == nil {
+		return
+	}
+	refF := fieldVar(lc.Ctx, "ref")
+	if refF == nil {
+		r.Unresolved("context ref field")
+		return
+	}
+	refT := namedOf(refF.Type())
+	var cache *types.Var
+	if st, ok := refT.Underlying().(*types.Struct); ok {
+		for i := 0; i < st.NumFields(); i++ {
+			if typeIs(st.Field(i).Type(), "sync/atomic", "Pointer") {
+				cache = st.Field(i)
+			}
+		}
+	}
+	if cache == nil {
+		r.Unresolved("mailbox cache (atomic.Pointer field) of the reference type")
+		return
+	}
+	n := 0
+	for _, fn := range p.Mod {
+		g := p.ig(fn)
+		for i, in := range g.Nodes {
+			c, ok := in.(*ssa.Call)
+			if !ok || c.Call.StaticCallee() == nil || len(c.Call.Args) < 2 {
+				continue
+			}
+			name := c.Call.StaticCallee().Name()
+			if name != "CompareAndSwap" && name != "Store" && name != "Swap" {
+				continue
+			}
+			if f, _ := fieldAddr(c.Call.Args[0]); f != cache {
+				continue
+			}
+			n++
+			newV := c.Call.Args[len(c.Call.Args)-1]
+			// edges on which a registry value was asserted to be an actor context
+			ctxE := map[edge]bool{}
+			var asserted []ssa.Value
+			for _, ifi := range ifsOf(fn) {
+				for _, outcome := range []bool{true, false} {
+					fc, okf := condFact(ifi.Cond, outcome)
+					if !okf || !fc.Bool || fc.Op != token.NEQ {
+						continue
+					}
+					ex, isEx := fc.X.(*ssa.Extract)
+					if !isEx || ex.Index != 1 {
+						continue
+					}
+					ta, isTA := ex.Tuple.(*ssa.TypeAssert)
+					if !isTA || namedOf(ta.AssertedType) != lc.Ctx || !anyContains(p.origins(ta.X), "(sync.Map).Load") {
+						continue
+					}
+					ctxE[g.branchEdge(ifi, outcome)] = true
+					asserted = append(asserted, ta)
+				}
+			}
+			good := len(ctxE) > 0 && g.DominatedByEdges(i, ctxE)
+			// the cached pointer designates a cell holding only that context's mailbox
+			if al, isAl := strip(newV).(*ssa.Alloc); isAl && good {
+				for _, ref := range *al.Referrers() {
+					if st, isSt := ref.(*ssa.Store); isSt && st.Addr == ssa.Value(al) {
+						o := p.origins(st.Val)
+						from := false
+						for _, ta := range asserted {
+							if mc, isC := strip(st.Val).(*ssa.Call); isC && callRecv(&mc.Call) != nil && derivesFromExtract(callRecv(&mc.Call), ta, 0) {
+								from = true
+							}
+						}
+						if !from && !allContain(o, "Context."+lc.MailboxF.Name()+"<-") {
+							good = false
+						}
+					}
+				}
+			} else if good {
+				good = false
+			}
+			r.Check(good, "mailbox cache written in "+fnName(fn), c.Pos(), "the reference's cache is written only on the edge where the registry holds an actor context at the reference's path, with that context's mailbox: a fallback (root mailbox) is never memoised, so a reference resolved before its target exists finds the target later")
+		}
+	}
+	if n == 0 {
+		r.Unresolved("no write of the reference's mailbox cache")
 	}
 }
